@@ -62,6 +62,9 @@ pub struct Config {
 	pub self_send: bool,
 	/// C12: a counterparty sends an invoice that reuses the slate id of one of the victim's pending sends
 	pub hostile_invoice: bool,
+	/// C04: once per history, while transactions are pending, the chain grows by more than 50 blocks at once
+	/// (a transaction that is finalized long before it is broadcast)
+	pub burst: bool,
 }
 
 pub struct Viol {
@@ -97,6 +100,7 @@ pub struct History<'a> {
 	pub unconf_reserved: BTreeSet<(usize, String)>,
 	pub emitted: Vec<(usize, String, Vec<u8>)>,
 	pub max_live: usize,
+	burst_done: bool,
 }
 
 fn acct_path(w: &Wallet, label: &str) -> Option<Identifier> {
@@ -133,6 +137,7 @@ impl<'a> History<'a> {
 			unconf_reserved: BTreeSet::new(),
 			emitted: vec![],
 			max_live: 0,
+			burst_done: false,
 		}
 	}
 
@@ -753,6 +758,21 @@ impl<'a> History<'a> {
 		self.ev("process_invoice_tx(hostile: reuses pending send id)", json!({"slate": f.id.to_string(), "wallet": victim}), &format!("{:?}", r.as_ref().map(|_| ()).map_err(err_kind)));
 	}
 
+	/// the chain grows by more than 50 blocks while transactions are pending (nothing from the pool is mined
+	/// during the burst: a pending transaction stays pending), then the wallets look
+	pub fn op_burst(&mut self, rng: &mut Rng) {
+		let n = 51 + rng.usize(6);
+		let mut ok = 0;
+		for _ in 0..n {
+			if self.w.mine(None, false).is_ok() {
+				ok += 1;
+			}
+		}
+		self.burst_done = true;
+		self.stat("op:burst-of-more-than-50-blocks");
+		self.ev("mine-burst", json!({"blocks": ok}), "Ok");
+	}
+
 	pub fn op_cancel(&mut self, rng: &mut Rng) {
 		let live: Vec<usize> = (0..self.flights.len()).filter(|i| !self.flights[*i].dead).collect();
 		if live.is_empty() {
@@ -1153,7 +1173,10 @@ impl<'a> History<'a> {
 			let live = self.flights.iter().filter(|f| !f.dead).count();
 			let r = rng.below(100);
 			let mut opwa: Option<(usize, String)> = None;
-			if r < 14 {
+			let pending_unposted = self.flights.iter().any(|f| !f.dead && !f.posted && (f.locked || f.finalized) && !f.cancelled_payer && !f.cancelled_payee);
+			if self.cfg.burst && !self.burst_done && self.step * 3 > self.cfg.steps && pending_unposted && rng.chance(1, 6) {
+				self.op_burst(rng);
+			} else if r < 14 {
 				self.op_mine(rng);
 			} else if r < 30 {
 				self.op_refresh(rng);
